@@ -111,6 +111,9 @@ func (b *argBuilder) plan(v Value, t types.Type, depth int) func() string {
 				if n > replayMaxLen {
 					n = replayMaxLen
 				}
+				if n < 0 {
+					n = 0
+				}
 				var sb strings.Builder
 				sb.WriteString(b.typeStr(t) + "(\"")
 				for k := 0; k < n; k++ {
@@ -150,6 +153,9 @@ func (b *argBuilder) plan(v Value, t types.Type, depth int) func() string {
 				return "nil"
 			}
 			n, _ := strconv.Atoi(b.vals[li])
+			if n < 0 {
+				return "nil"
+			}
 			extra := 0
 			if n > replayMaxLen {
 				extra = n - replayMaxLen
